@@ -314,17 +314,36 @@ EXTRA7 = {
     "C19": "Histories that start from entries processed by the shipped middlewares (their marks in the metadata); entries of 1 .. 20 and 31 .. 258 fields.",
     "C20": "Block-middleware passes (tagging, doubling, dropping, chained) over libraries of 255 .. 4099 blocks.",
 }
+EXTRA8 = {
+    "C04": "A middle of 16500 failed blocks.",
+    "C05": "Default calls after a caller edited a list handed out by the stack factories.",
+    "C06": "Two writes in flight on one format object (at each reading of the library's blocks); a Field object shared by several entries.",
+    "C07": "Two passes in flight on one copying instance; blocks written through a temporary library.",
+    "C08": "add() of an iterable that reads every view between yields (part of the BFS alphabet).",
+    "C09": "A second part added through an iterable that reads the views; duplicates after a user pass that changed keys.",
+    "C11": "Two default parses in flight through the views of a user's Library subclass.",
+    "C13": "Two passes in flight on one SplitNameParts / SeparateCoAuthors instance.",
+    "C14": "A NameParts object edited in place between two merges.",
+    "C15": "Two passes in flight on one month-middleware instance.",
+    "C16": "Two sorts in flight on one sorter (from a block's copy hook).",
+    "C17": "Two calls in flight on one NormalizeFieldKeys instance (from a logging handler inside its warning).",
+    "C19": "Two comparisons of the same blocks in flight (from a value's __eq__).",
+    "C20": "Two calls in flight: a complete second call of 8 kinds from a hook of the outer call's own middleware, inline or in a second thread, four routes; two passes in flight on one instance; shared Field objects; factory lists edited by the caller; passes over 16387 / 65539 blocks.",
+}
+for _c in CHECKS:
+    if _c["id"] in EXTRA8:
+        _c["text"] = _c["text"] + " " + EXTRA8[_c["id"]]
 for _c in CHECKS:
     if _c["id"] in EXTRA7:
         _c["text"] = _c["text"] + " " + EXTRA7[_c["id"]]
     _c["text"] = _c["text"] + (
-        " Environments: the check's broad, cheap families (ENV_SHARDS) are run again in a fresh interpreter for each of 12 environments"
-        " (hash seeds 1 .. 12; a C locale without UTF-8 mode; submodules imported in reverse order with the collector off; an eager collector"
-        " under python -O; the integer-string limit lowered to 640 digits after import), judged by the same oracles."
+        " Environments: the check's broad, cheap families (ENV_SHARDS) are run again in a fresh interpreter for each of 13 environments"
+        " (hash seeds 1 .. 13; a C locale without UTF-8 mode; submodules imported in reverse order with the collector off; an eager collector"
+        " under python -O; the integer-string limit lowered to 640 digits after import; a logging handler that makes a complete call of its own at every record), judged by the same oracles."
     )
     if "construction order" in EXTRA7.get(_c["id"], ""):
         _c["technique"] = _c["technique"] + "; ordered pairs of configurations against per-configuration references from fresh interpreters"
-    _c["technique"] = _c["technique"] + "; exhaustive over a stated set of 12 interpreter environments for the ENV_SHARDS families"
+    _c["technique"] = _c["technique"] + "; exhaustive over a stated set of 13 interpreter environments for the ENV_SHARDS families"
 
 CHECKS.sort(key=lambda c: c["id"])
 
